@@ -23,7 +23,7 @@ REQUIRED = [
     "judged:closest:on-curve", "judged:closest:near", "closest:multimodal-judged", "closest:far-weak",
     "judged:edge-points", "judged:edge-length-exact", "judged:edge-length-approx", "edge:against-curve-direction",
     "judged:edge-after-vertex-move", "pair:start-parameter-exactly-zero-inside-nonzero-bounds",
-    "edge:along-curve-direction", "spacing:uneven",
+    "edge:along-curve-direction", "spacing:uneven", "history:curve-sheared-or-stretched-before-judging",
 ]
 MIN_KEYS = 150
 RULE = (
@@ -119,6 +119,20 @@ def gen_case(ctx):
     spec = xr.gen_curve(rng)
     kind = spec["kind"]
     case = {"mode": mode, "curve": spec}
+    if kind in xr.POINT_KINDS and mode == "curve" and rng.random() < 0.25:
+        pre = []
+        for _ in range(rng.randint(1, 2)):
+            what = rng.choice(["shear", "shear", "translate", "scale"])
+            if what == "shear":
+                n = [float(x) for x in geom.rand_unit(rng)]
+                d = np.cross(n, geom.rand_unit(rng))
+                d = [float(x) for x in d / np.linalg.norm(d)]
+                pre.append(["shear", n, [rng.uniform(-1, 1) for _ in range(3)], d, rng.choice([0.5, 0.9, 1.2, 2.2])])
+            elif what == "translate":
+                pre.append(["translate", [rng.uniform(-2, 2) for _ in range(3)]])
+            else:
+                pre.append(["scale", rng.choice([0.3, 2.5]), [rng.uniform(-1, 1) for _ in range(3)]])
+        case["pre"] = pre
     npts = len(spec["points"]) if kind in xr.POINT_KINDS else 0
     if mode == "curve":
         # parameters of non-discrete curves are given as fractions of the bounds
@@ -225,6 +239,32 @@ def run_case(ctx, case):
     spec = case["curve"]
     kind = spec["kind"]
     lib = xr.build_curve(spec, cb)
+    pre = case.get("pre") if kind in xr.POINT_KINDS else None
+    if pre:
+        # history: the long-lived curve is queried once, then sheared / stretched through its own methods; every clause
+        # is then judged against the defining points the curve holds NOW (nothing derived at construction may survive)
+        try:
+            lib.get_length()
+        except Exception:  # noqa: BLE001
+            pass
+        size0 = float(np.linalg.norm(np.ptp(np.array(spec["points"], dtype=float), axis=0)))
+        for step in pre:
+            if step[0] == "shear":
+                lib.shear(step[1], [x * size0 for x in step[2]], step[3], step[4])
+            elif step[0] == "translate":
+                lib.translate([x * size0 for x in step[1]])
+            elif step[0] == "scale":
+                lib.scale(step[1], [x * size0 for x in step[2]])
+        now = np.array(lib.array.points if hasattr(lib.array, "points") else lib.array, dtype=float)
+        if now.shape != np.array(spec["points"]).shape or not np.all(np.isfinite(now)):
+            ctx.violation(f"transformed-curve-lost-its-points:{kind}", f"{pre}: points now {now.tolist()}")
+            return
+        seg = np.linalg.norm(now[1:] - now[:-1], axis=1)
+        if float(seg.min()) < 1e-3 * float(seg.max()):
+            ctx.count("skipped:pre-transform-collapsed-a-segment")
+            return
+        spec = dict(spec, points=[[float(x) for x in p] for p in now])
+        ctx.count("history:curve-sheared-or-stretched-before-judging")
     ref = xr.Ref(spec, lib)
     ctx.count(f"kind:{kind}")
     spacing, ratio = _spacing(ref)
